@@ -7,4 +7,5 @@ mkdir -p .build
 ( cd lean && lake build Norad driver )
 [ -f harness/Cargo.lock ] || cp /repo/Cargo.lock harness/Cargo.lock
 ( cd harness && CARGO_TARGET_DIR=/verif/.build/target cargo build --release --offline )
+( cd harness && CARGO_TARGET_DIR=/verif/.build/target-par cargo build --release --offline --features par )
 echo setup-ok
